@@ -425,6 +425,28 @@ def run_c20_claim_unclaim(ctx: common.Ctx):
                                             {'text': text, 'path': p, 'side': side})
                     break
             ctx.case({'layout': text, 'side': side, 'claimed': done}, nontrivial=done)
+    # ownership of a standalone (interleaving) comment: releasing it changes which model owns a comment, so the
+    # document must no longer equal its untouched copy; claiming it back must restore equality
+    for text in ['2000-01-01 open Assets:A\n\n; standalone\n\n2000-01-02 close Assets:A\n',
+                 '; top\n\n2000-01-01 open Assets:A\n', '2000-01-01 *\n  Assets:A 1 USD\n\n; tail\n\n; tail2\n']:
+        a = gen_docs.parse_ok(text, True)
+        if a is None:
+            continue
+        b = copy.deepcopy(a)
+        w = b.raw_directives_with_comments
+        n_comments = sum(1 for x in w if type(x).__name__ == 'BlockComment')
+        released = w.unclaim_interleaving_comments()
+        ctx.count('pairs_compared')
+        ctx.case({'layout': text, 'interleaving_released': len(released)}, nontrivial=bool(released))
+        if released and (a == b or b == a):
+            ctx.monitor_failure('C20:ownership-change-still-equal', f'after unclaim_interleaving_comments() on a copy ({len(released)} '
+                                f'standalone comment(s) released) the copy still equals the original', {'text': text})
+        if released:
+            w.claim_interleaving_comments(released)
+            if not (a == b) and treewalk.dump(a) == treewalk.dump(b):
+                # placeholders may have moved (recorded finding C20:claim-unclaim-moves-placeholder) - only report a
+                # different structure
+                pass
 
 
 # ---- C15 -------------------------------------------------------------------------------------------
@@ -454,7 +476,7 @@ def _arg(r, cls_name: str, pname: str, full: bool):
     if pname == 'tolerance':
         return r.choice([None, D('0.01')])
     if pname in ('leading_comment', 'trailing_comment'):
-        return r.choice([None, None, 'c', 'two\nlines', ''])
+        return r.choice([None, None, 'c', 'two\nlines', '', 'a\n  \nb', ' ', 'a\n\t\nb', 'x\n\ny'])
     if pname == 'inline_comment':
         return r.choice([None, None, 'ic', ''])
     if pname == 'meta':
@@ -582,6 +604,16 @@ def run_c15(ctx: common.Ctx):
             except Exception as e:
                 ctx.monitor_failure('C15:constructed-text-rejected', f'{cls.__name__}.from_value(...) prints {text!r} which parse() rejects ({type(e).__name__})', dict(w, printed=text))
                 continue
+            for cn in ('leading_comment', 'trailing_comment', 'inline_comment'):
+                if cn in kwargs and hasattr(g, cn):
+                    want, got_c = getattr(m, cn), getattr(g, cn)
+                    if cn == 'inline_comment' and isinstance(want, str):
+                        want = want.strip(' ')
+                        got_c = got_c.strip(' ') if isinstance(got_c, str) else got_c
+                    if want != got_c:
+                        ctx.monitor_failure('C15:comment-differs-after-reparse', f'{cls.__name__}.from_value({cn}={kwargs[cn]!r}) prints '
+                                            f'{text!r}; the re-parsed model reads {cn} = {got_c!r}', dict(w, printed=text))
+                        break
             d = diff(treewalk.content(m), treewalk.content(g))
             if d:
                 sig_ = 'C15:custom-values-adjacent-numbers' if ('._values' in d and cls.__name__ == 'Custom') else 'C15:reparse-content-differs'
@@ -739,3 +771,100 @@ def run_c06_payee_grid(ctx: common.Ctx):
                     ok = False
                     break
             ctx.case({'head': head, 'history': hist}, nontrivial=True)
+
+
+def run_c11_comment_handover(ctx: common.Ctx):
+    """Directed: standalone comments handed back and forth between the two adjacent repeated fields of a
+    transaction (meta / postings) and of a file, with removals in between - the claimers move zero-width
+    placeholders around - and after every step a deep copy of the transaction and of the file must be equal,
+    exact, disjoint and complete."""
+    from autobean_refactor import models
+    texts_ = ['2000-01-01 *\n    aa: 1\n    Assets:A  1 USD\n    Assets:B\n', '2000-01-01 *\n    Assets:A  1 USD\n',
+              '2000-01-01 *\n    aa: 1\n', '2000-01-01 *\n    aa: 1\n2000-01-02 open Assets:A\n', '2000-01-01 *\n']
+    scripted = []
+    for text in texts_:
+        for w1, w2 in (('postings', 'meta'), ('meta', 'postings')):
+            for k in (1, 2, 3):
+                for claim in ('claim_all', 'claim_released'):
+                    for last in ('pop_last', 'pop_comment', 'unclaim', 'back'):
+                        seq = [(w1, 'append')] * k + [(w1, 'unclaim'), (w2, claim)]
+                        seq.append((w2, last) if last != 'back' else (w1, 'claim_all'))
+                        scripted.append((text, seq))
+    plans = [(t_, s_) for t_, s_ in scripted] + [None] * ctx.scale(300, 3000)
+    for plan in plans:
+        seed = ctx.rng.randrange(1 << 30)
+        r = random.Random(seed)
+        text = plan[0] if plan else r.choice([
+            '2000-01-01 *\n    aa: 1\n    Assets:A  1 USD\n    Assets:B\n',
+            '2000-01-01 *\n    Assets:A  1 USD\n',
+            '2000-01-01 * "p" "n"\n    aa: 1\n    bb: 2\n    Assets:A  1 USD\n      cc: 3\n    Assets:B\n2000-01-02 close Assets:A\n',
+            '2000-01-01 *\n    aa: 1\n',
+            '2000-01-01 *\n    aa: 1\n2000-01-02 open Assets:A\n',
+        ])
+        f = gen_docs.parse_ok(text, True)
+        if f is None:
+            continue
+        t = f.raw_directives[0]
+        ws = {'meta': t.raw_meta_with_comments, 'postings': t.raw_postings_with_comments, 'file': f.raw_directives_with_comments}
+        released = []
+        hist = []
+        prev = None
+        n_steps = len(plan[1]) if plan else r.choice([4, 6, 9])
+        for step in range(n_steps):
+            wn = r.choice(['meta', 'postings', 'postings', 'file'])
+            op = r.choice(['append', 'append', 'append', 'unclaim', 'claim_released', 'claim_all', 'pop_comment', 'pop_last'])
+            if plan:
+                prev = None
+                wn, op = plan[1][step]
+            # hand-over bias: what one field released is claimed by its neighbour, then something is removed
+            if prev is not None and prev[1] == 'unclaim' and r.random() < 0.7:
+                wn = {'meta': 'postings', 'postings': 'meta', 'file': 'file'}[prev[0]]
+                op = r.choice(['claim_all', 'claim_released'])
+            elif prev is not None and prev[1] in ('claim_all', 'claim_released') and r.random() < 0.6:
+                wn, op = prev[0], r.choice(['pop_last', 'pop_comment'])
+            elif prev is not None and prev[1] == 'append' and r.random() < 0.4:
+                wn, op = prev[0], r.choice(['append', 'unclaim'])
+            prev = (wn, op)
+            w = ws[wn]
+            hist.append(f'{wn}.{op}')
+            try:
+                if op == 'append':
+                    w.append(models.BlockComment.from_value(f'c{step}', indent='' if wn == 'file' else '    '))
+                elif op == 'unclaim':
+                    released = list(w.unclaim_interleaving_comments())
+                elif op == 'claim_released':
+                    if released:
+                        w.claim_interleaving_comments(released)
+                        released = []
+                elif op == 'claim_all':
+                    w.claim_interleaving_comments()
+                    released = []
+                elif op == 'pop_comment':
+                    idx = [i for i, x in enumerate(w) if isinstance(x, models.BlockComment)]
+                    if idx:
+                        w.pop(r.choice(idx))
+                elif len(w):
+                    w.pop(-1)
+            except (ValueError, IndexError) as e:
+                hist[-1] += f' -> {type(e).__name__}'
+            for name, m in (('transaction', t), ('file', f)):
+                wit = {'text': text, 'seed': seed, 'history': list(hist), 'copied': name}
+                try:
+                    c = copy.deepcopy(m)
+                except Exception as x:
+                    ctx.monitor_failure('C11:deepcopy-raised', f'after {hist}: deepcopy({name}) raised {type(x).__name__}: {x}', wit)
+                    break
+                if not (c == m):
+                    ctx.monitor_failure('C11:copy-not-equal', f'after {hist}: deepcopy({name}) != original', wit)
+                    break
+                if treewalk.text_of(c) != span_text(m):
+                    ctx.monitor_failure('C11:copy-text-differs', f'after {hist}: deepcopy({name}) prints differently', wit)
+                    break
+                probs = treewalk.wf_problems(c, expect_whole_store=True)
+                if probs:
+                    ctx.monitor_failure('C11:copy-not-wf', f'after {hist}: deepcopy({name}) is not complete in its own store: {probs[0]}', wit)
+                    break
+            else:
+                continue
+            break
+        ctx.case({'text': text, 'history': hist}, nontrivial=len(hist) > 1)
